@@ -264,6 +264,13 @@ class C17(Prop):
                 pool.append(d)
                 if use_glob:
                     pool.append(d + "/*.md")
+            if subdirs and r.random() < 0.35:
+                # the same directories spelled non-canonically ('a/../b'): the governing ignore file and its rules are the same
+                d1 = r.choice(subdirs)
+                pool.append(os.path.join(d1, "..", os.path.basename(d1)) if "/" not in d1 else os.path.join(d1, "..", os.path.basename(d1)))
+                pool.append(os.path.join(d1, ".."))
+                if use_glob:
+                    pool.append(os.path.join(d1, "..", "*.md"))
             args = r.sample(pool, r.randint(1, min(4, len(pool))))
             if len(args) >= 2 and r.random() < 0.3:
                 # the same root again later in the list (A B A): a resolver must not carry state from B into A's second visit
